@@ -25,7 +25,7 @@ MANIFEST = dict(
     text='TLC enumerates every abstract ARP/IPv4/IPv6/ICMP/UDP/TCP frame of the lattice (field classes for header lengths, total/payload lengths, fragment flags and offsets, addresses, view splits, data offsets, flag combinations, a TCP option grammar with truncated options and bad lengths, ICMP types x size classes with truncated embedded headers, ARP validity classes) and every sequence of <= 3 unrestricted fragments (inconsistent, overlapping, two last fragments, zero-length, offsets at 65528 where `last` wraps in uint16) and <= 3 segments on one 4-tuple, all sequences of <= 3 (4 over a core alphabet) segments with real sequence numbers on an ESTABLISHED connection opened passively or actively (out-of-order / overlapping data, data+FIN out of order then the gap fill, FIN then data beyond it, duplicate FIN, RST in/out of window, window-edge straddling, empty segments ahead, SACK on/off, urgent, truncated options, SYN again), "many holes" (2..12 and 40 disjoint out-of-order blocks of 1 or 5 bytes, ascending / descending / shuffled, with duplicates or neighbour-merging overlaps, optionally followed by the gap fills), ICMP error frames (v4 type 3 codes 0-4/13, types 11, 12; v6 types 1-4; next-hop MTU classes 0..0xffffffff) quoting an established connection (plain / timestamps / SACK, data in flight or idle, right or wrong sequence number), a SYN-SENT socket, a half-open connection, a connected or bound UDP socket or nothing, with full and truncated quotes, followed by a wait longer than one retransmission timeout, plus queue-pressure families (bursts of well-formed frames that overflow one bounded queue: UDP receive buffer of an unread / late-read socket with large, small and fragmented datagrams, SYN backlog, TCP receive buffer, reassembly memory, neighbour cache; afterwards the application reads the queue and the probes run); each is aimed at a listener, an established connection, a bound UDP socket or nothing in a real stack. Oracle: child exit status / panic text, hang (goroutine dump), the three probes of the property (echo answered, new TCP connection completes and echoes data, UDP datagram delivered) plus an established connection that must keep echoing, and the outcome class (DropAt / DeliverTo / Reply) where the specification fixes one. A hole-list model of the reassembler is checked for NoCrash under all such fragment sequences.',
     design='5 C07',
     level='model_checking',
-    note='The lattice is finite by construction: one representative per field class; a crash that needs a specific VALUE inside a class that the representatives miss is not found. Pure noise (random bytes, truncations and bit flips of valid frames) is not enumerable from a model: it is exploration-grade and judged against Serving only. The quick tier runs every single-mutation case plus a seeded sample (~5 k cases); the thorough tier runs the full lattice. Probe deadlines are give-up bounds: a failed probe / hang counts only if it reproduces on a fresh child with the minimised sequence. Outcome classes are asserted only where the property text (with the RFC validity rules it names) fixes one; IPv4 IHL < 5, bad checksums (the stack verifies none), UDP length < datagram and multi-view corner cases are Unspecified. Observations are attributed to a case by the injecting goroutine or by a per-case tag (port / ident + sequence base / payload pattern).')
+    note='The lattice is finite by construction: one representative per field class; a crash that needs a specific VALUE inside a class that the representatives miss is not found. Pure noise (random bytes, truncations and bit flips of valid frames) is not enumerable from a model: it is exploration-grade and judged against Serving only. The quick tier runs every single-mutation case plus a seeded sample (~5 k cases); the thorough tier runs the full lattice. Probe deadlines are give-up bounds: a failed probe / hang counts only if it reproduces on a fresh child with the minimised sequence. Outcome classes are asserted only where the property text (with the RFC validity rules it names) fixes one; IPv4 IHL < 5, bad checksums (the stack verifies none), UDP length < datagram and multi-view corner cases are Unspecified. Observations are attributed to a case by the injecting goroutine or by a per-case tag (port / ident + sequence base / payload pattern). Family neigh-failed (round 8): state left by the own activity of the stack - a neighbour that stayed silent for three requests, then a late ARP reply / request / neighbour advertisement from it - precedes the probes.')
 
 SPEC = ['ingress']
 
